@@ -21,6 +21,7 @@ ASSUMPTIONS = [
     "mixing get_sample and get_series on one instance is not asserted (documented prefetch buffer)",
 ]
 DECIDING_COUNTERS = ["partition_histories", "twin_pairs", "delayed_twin_pairs", "get_sample_runs",
+                     "interleaved_histories",
                      "cascade_compared",
                      "histories_with_request_over_65536",
                      "histories_with_zero_request", "histories_with_single_sample_request"]
@@ -187,6 +188,50 @@ def delayed_twin_case(rec, seedt):
         rec.violation("generator-raises", f"{type(e).__name__}: {e}")
 
 
+def interleaved_case(rec, seedt):
+    """Several generators alive at once, read in an interleaved order through get_sample() and
+    get_series(): each one's stream must be the stream its own same-seed twin produces alone."""
+    rng = gen.rng_for(*seedt)
+    k = int(rng.integers(2, 5))
+    specs = [random_spec(rng) for _ in range(k)]
+    for sp in specs:
+        sp["init"] = False
+    mode = str(rng.choice(["get_sample", "get_sample", "get_series"]))
+    n_each = int(rng.choice([50, 4200, 9000])) if mode == "get_sample" else int(rng.integers(3, 40))
+    desc = {"kind": "interleaved", "seed": list(seedt), "specs": specs, "mode": mode,
+            "n_each": n_each}
+    rec.case(desc, nontrivial=True)
+    try:
+        gens = [make_gen(sp) for sp in specs]
+        got = [[] for _ in range(k)]
+        if mode == "get_sample":
+            order = rng.integers(0, k, size=n_each * k)
+            for j in order:
+                got[j].append(gens[j].get_sample())
+            streams = [np.asarray(g) for g in got]
+            refs = [np.asarray(make_gen(sp).get_series(-(-len(s_) // 4096) * 4096 or 4096))[:len(s_)]
+                    for sp, s_ in zip(specs, streams)]
+        else:
+            sizes = [[int(rng.integers(0, 300)) for _ in range(n_each)] for _ in range(k)]
+            for i in range(n_each):
+                for j in rng.permutation(k):
+                    got[j].append(np.asarray(gens[j].get_series(sizes[j][i])))
+            streams = [np.concatenate(g) if g else np.empty(0) for g in got]
+            refs = [np.asarray(make_gen(sp).get_series(len(s_))) for sp, s_ in zip(specs, streams)]
+    except Exception as e:
+        rec.violation("generator-raises", f"{type(e).__name__}: {e}")
+        return
+    rec.count("interleaved_histories")
+    for sp, s_, r_ in zip(specs, streams, refs):
+        if len(s_) and not np.array_equal(s_, r_):
+            j = int(np.argmax(s_ != r_))
+            rec.violation(f"interleaving-dependence:{sp['gen']}",
+                          f"a {sp['gen']} generator read through {mode} while {k - 1} other "
+                          f"generator(s) were read in between differs from its same-seed twin read "
+                          f"alone, from sample {j} on")
+            break
+
+
 def twin_case(rec, seedt):
     rng = gen.rng_for(*seedt)
     spec = random_spec(rng)
@@ -303,6 +348,8 @@ def run_shard(params, rec):
         delayed_twin_case(rec, [seed, sh, "dtwin", i])
         if i % 4 == 0:
             twin_case(rec, [seed, sh, "twin", i])
+        if i % 6 == 0:
+            interleaved_case(rec, [seed, sh, "inter", i])
         if i % 2 == 0:
             cascade_case(rec, [seed, sh, "casc", i])
             design_case(rec, [seed, sh, "design", i])
@@ -315,6 +362,8 @@ def replay(case, rec):
         s0 = list(case["seed"])
         for i in range(s0[-1] + 1):
             delayed_twin_case(rec, s0[:-1] + [i])
+    elif k == "interleaved":
+        interleaved_case(rec, case["seed"])
     elif k == "partition":
         partition_case(rec, case["seed"])
     elif k == "twin":
